@@ -18,6 +18,7 @@
  *   sig sine <omega> <amp> <ph> | sig ramp <scale> | sig dc <v> | sig noise
  *   ratio <r> <slew>              soxr_set_io_ratio
  *   proc <ilen> <olen>            soxr_process(in, ilen, &idone, out, olen, &odone)
+ *   procn <ilen> <olen>           soxr_process(in, ilen, NULL, out, olen, &odone): all of ilen is taken
  *   flush <olen>                  soxr_process(0, 0, 0, out, olen, &odone)
  *   dump <path>                   from now on append every delivered frame (raw float32) to <path>
  *   hash                          FNV hash of everything delivered so far
@@ -83,16 +84,18 @@ static void absorb(float const * out, size_t n)
   total_out += n;
 }
 
-static void do_process(int flush, size_t il, size_t ol)
+static void do_process(int flush, size_t il, size_t ol)   /* flush: 0 proc, 1 flush, 2 procn (no idone: everything is taken) */
 {
   float * in = 0, * out = malloc(ol * sizeof(float) + !ol); size_t id = 0, od = 0, i; soxr_error_t e;
-  if (!flush) { in = malloc(il * sizeof(float) + !il); for (i = 0; i < il; ++i) in[i] = (float)sig(pos + i); }
-  e = flush? soxr_process(S, 0, 0, 0, out, ol, &od) : soxr_process(S, in, il, &id, out, ol, &od);
+  if (flush != 1) { in = malloc(il * sizeof(float) + !il); for (i = 0; i < il; ++i) in[i] = (float)sig(pos + i); }
+  if (flush == 2) id = il;
+  e = flush == 1? soxr_process(S, 0, 0, 0, out, ol, &od) : soxr_process(S, in, il, flush == 2? 0 : &id, out, ol, &od);
   if (od <= ol) absorb(out, od);
   pos += id;
   free(in); free(out);
-  if (flush) printf("> vr.flush %zu\n", ol); else printf("> vr.proc %zu %zu\n", id, ol);
-  printf("< R od=%zu mis=0", od);
+  if (!is_vr) { printf("I proc id=%zu od=%zu%s%s\n", id, od, e? " error " : "", e? e : ""); return; }   /* constant-rate engine: no VR model op */
+  if (flush == 1) printf("> vr.flush %zu\n", ol); else printf("> vr.proc %zu %zu\n", id, ol);
+  printf("< R od=%zu mis=0 neg=0", od);
   print_state();
   printf("\n");
   if (e) printf("I error %s\n", e);
@@ -163,6 +166,7 @@ int main(void)
     }
     else if (!S) printf("I no-resampler\n");
     else if (!strcmp(t[0], "proc") && nt >= 3) do_process(0, (size_t)strtoull(t[1], 0, 10), (size_t)strtoull(t[2], 0, 10));
+    else if (!strcmp(t[0], "procn") && nt >= 3) do_process(2, (size_t)strtoull(t[1], 0, 10), (size_t)strtoull(t[2], 0, 10));
     else if (!strcmp(t[0], "flush") && nt >= 2) do_process(1, 0, (size_t)strtoull(t[1], 0, 10));
     else if (!strcmp(t[0], "dump") && nt >= 2) { if (dumpf) fclose(dumpf); dumpf = fopen(t[1], "wb"); printf("I dump %s\n", dumpf? "ok" : "fail"); }
     else if (!strcmp(t[0], "hash")) printf("I hash out=%" PRIu64 " pos=%" PRIu64 " h=%016" PRIx64 " err=%s\n", total_out, pos, hash, S->error? S->error : "-");
